@@ -72,7 +72,16 @@ class Run:
             path = os.path.join(LEAN, rel)
             old = open(path).read() if os.path.exists(path) else None
             if old != content and common.ALT:
-                self.proof_alarms.append(("generated:" + rel, "the file regenerated from %s differs from the committed one (a table, constant or wiring row changed in the source); theorems over it are not re-checked in CV_REPO mode" % common.REPO))
+                if getattr(self, "alt_can_rebuild", False):
+                    # seed testing with the build lock held: swap the regenerated file in, re-check the theorems over
+                    # it, and swap the committed copy back afterwards (restore_generated)
+                    self.alt_restore = getattr(self, "alt_restore", {})
+                    self.alt_restore[path] = old
+                    with open(path, "w") as f:
+                        f.write(content)
+                    self.say("[alt] regenerated %s from %s (will be restored)" % (rel, common.REPO))
+                else:
+                    self.proof_alarms.append(("generated:" + rel, "the file regenerated from %s differs from the committed one (a table, constant, wiring row or translated formula changed in the source); theorems over it are not re-checked (build lock busy)" % common.REPO))
                 continue
             if old != content:
                 os.makedirs(os.path.dirname(path), exist_ok=True)
@@ -95,6 +104,21 @@ class Run:
             for mm in re.findall(r"^\s*(?:public\s+)?import\s+(Compute\.[\w.]+)", open(path).read(), re.M):
                 todo.append(mm)
         return seen
+
+    def restore_generated(self):
+        rest = getattr(self, "alt_restore", {})
+        if not rest:
+            return
+        for path, old in rest.items():
+            if old is None:
+                os.remove(path)
+            else:
+                with open(path, "w") as f:
+                    f.write(old)
+        self.alt_restore = {}
+        targets = list(self.mod.PROOF_MODULES) + ["cv_" + self.mod.BIN]
+        rc, _ = sh(["lake", "build"] + targets, cwd=LEAN, timeout=3600)
+        self.alt_restored_build = (rc == 0)
 
     def forbidden_scan(self):
         hits = []
@@ -315,6 +339,7 @@ def main(argv):
             else:
                 fcntl.flock(lk, fcntl.LOCK_EX)
             try:
+                run.alt_can_rebuild = bool(common.ALT and got)
                 run.extract()
                 run.forbidden_scan()
                 if not got:
@@ -326,12 +351,16 @@ def main(argv):
                         run.leanchecker()
                 else:
                     build_ok = False
+                run.restore_generated()
                 if not run.cargo_build():
                     return 2
             finally:
-                fcntl.flock(lk, fcntl.LOCK_UN)
+                try:
+                    run.restore_generated()
+                finally:
+                    fcntl.flock(lk, fcntl.LOCK_UN)
     model_exe = os.path.join(LEAN, ".lake", "build", "bin", "cv_" + mod.BIN)
-    have_model = os.path.exists(model_exe) and build_ok
+    have_model = os.path.exists(model_exe) and (build_ok or getattr(run, "alt_restored_build", False))
 
     # -------- replay mode
     if args.replay:
